@@ -20,10 +20,10 @@ func verifLoadText(text string) *T {
 	return doc
 }
 
-//verif:harness id=C04 tier=quick,thorough witness=end,violated,switched bounds="second rule table on the conforming document: 30 further rules (contact / license / externalDocs at four levels / discriminator / xml / example / link / request body / OAuth flows of the four kinds / http and apiKey and openIdConnect schemes / server braces and variables / duplicate parameters at both levels / content with two entries / example next to examples at three kinds of position / unresolved references of eight kinds / a field or an extension next to a $ref with the two options that concern it / malformed component names of nine kinds / unknown schema format with its option / Enable-after-Disable option pairs); for each the conforming form is accepted and the violating form rejected"
+//verif:harness id=C04 tier=quick,thorough witness=end,violated,switched bounds="second rule table on the conforming document: 32 further rules (media types without a schema / the pattern option next to defaults and examples / contact / license / externalDocs at four levels / discriminator / xml / example / link / request body / OAuth flows of the four kinds / http and apiKey and openIdConnect schemes / server braces and variables / duplicate parameters at both levels / content with two entries / example next to examples at three kinds of position / unresolved references of eight kinds / a field or an extension next to a $ref with the two options that concern it / malformed component names of nine kinds / unknown schema format with its option / Enable-after-Disable option pairs); for each the conforming form is accepted and the violating form rejected"
 func verifH_C04_rules2() {
 	ctx := context.Background()
-	rule := verifChoose("rule", 30)
+	rule := verifChoose("rule", 32)
 	text := verifBaseDoc
 	// rules that need another document text (fields next to a $ref only exist in the text)
 	var opts []ValidationOption
@@ -645,6 +645,30 @@ func verifH_C04_rules2() {
 		case 2:
 			mt.Encoding["g"].Style = "deepObject" // deepObject needs explode
 		}
+	}
+	switch rule {
+	case 30: // the rules of examples hold for a media type without a schema too
+		mt := &MediaType{Example: "v"}
+		doc.Components.RequestBodies["B"].Value.Content["text/x-noschema"] = mt
+		check()
+		switch verifChoose("how", 3) {
+		case 0:
+			mt.Examples = Examples{"e": &ExampleRef{Value: &Example{Value: "v"}}}
+		case 1:
+			mt.Example, mt.Examples = nil, Examples{"e": &ExampleRef{Value: &Example{Value: "v", ExternalValue: "https://v"}}}
+		case 2:
+			mt.Example, mt.Examples = nil, Examples{"e": &ExampleRef{Value: &Example{Value: "v", Extensions: bad}}}
+		}
+	case 31: // DisableSchemaPatternValidation: a pattern Go cannot compile is accepted, also next to a default or an example
+		s := &Schema{Type: &Types{"string"}, Pattern: "(?!x)a"}
+		switch verifChoose("with", 3) {
+		case 1:
+			s.Default = "a"
+		case 2:
+			s.Example = "a"
+		}
+		doc.Components.Schemas["Zz"] = &SchemaRef{Value: s}
+		opts, accept = append(opts, DisableSchemaPatternValidation()), true
 	}
 	err := doc.Validate(ctx, opts...)
 	verifReach("violated")
